@@ -278,6 +278,25 @@ deriving Repr
 
 abbrev FontDict := FontDictOf FontFile
 
+/-- The FontMatrix entry of a Type3 font dictionary as it stands in the file. -/
+inductive MatSpec where
+  | absent                                  -- no FontMatrix entry
+  | notList                                 -- an object that is not an array (`list_value` gives `[]` when not strict)
+  | list (xs : List (Option Rat))           -- an array; `none` = an element that is not a number
+deriving Repr
+
+/-- `PDFType3Font.__init__`: `font_matrix = [resolve1(v) for v in list_value(spec.get("FontMatrix", []))]`, replaced
+by the default unless it has exactly `T3_MATRIX_LEN` elements, all numbers (constants regenerated from the source). -/
+def type3Matrix (ms : MatSpec) : Matrix :=
+  let xs : List (Option Rat) := match ms with
+    | .list xs => xs
+    | _ => []
+  let vals : List Rat :=
+    if xs.length != T3_MATRIX_LEN || !(xs.all Option.isSome) then T3_DEFAULT_MATRIX else xs.map (fun x => x.getD 0)
+  match vals with
+  | [a, b, c, d, e, f] => (a, b, c, d, e, f)
+  | _ => (0, 0, 0, 0, 0, 0)
+
 /-- `PDFResourceManager.get_font`: the class constructed for a font dictionary's Subtype (absent: Type1;
 unknown: the fallback class).  The table is regenerated from the if/elif chain of the source. -/
 def fontClassOf (subtype : Option String) : String :=
